@@ -58,6 +58,9 @@ CLAIMED = {
     "C19": ("Lean 4 theorems on the decision logic of the CLI (exit status iff, output selection, quiet only affects the pretty graph, no graph on failure, --global parsing) + runs of the real binary against the library called in-process",
             "Kernel-checked over all option sets and library results (the decision table is finite and proved by exhaustive case analysis): exit status 0 iff options well-formed, file loads, no syntax errors or they are allowed, execution succeeds; on failure nothing is printed and no file written; --json prints the JSON and with --output also writes the file; --quiet only suppresses the pretty graph; a --global without '=' or with a repeated name fails; the global's name is the text before the first '='. clap, the grammar loader, process plumbing and file I/O are not modelled (partial). Tie: the real binary built from /repo with --features cli runs offline (staged grammar directory) on generated pairs incl. rejected files, failing executions and faulty sources x option sets; exit status, kind of stdout and presence of the output file vs the model; stdout / file contents vs the library's pretty_print / JSON (syntax-node ids normalised).",
             "DESIGN.md section 7, C19"),
+    "C12": ("Lean 4 theorems that nothing observable depends on hash-container order (lookups, pretty attribute lines, lazy forcing order invariant under permutation of the underlying association lists) on a model whose entry points are pure functions + transcript equality across repeated loads, interleaved and concurrent executions and separate OS processes",
+            "Kernel-checked: map lookups, Attributes::get, the pretty-printed attribute lines and the order in which lazy evaluation forces scoped variables are invariant under every permutation of the underlying (hash) container; execution is a function of (file, tree, matches, globals, config) that returns only outcome, graph and poll count. Thread interference, allocator- and address-dependent behaviour cannot be exhibited by a pure model (partial there): the check runs each generated file (valid, runtime-faulty, statically faulty) 3x through the loader, executes it in both modes on 3 trees in two interleavings and from 4 (quick) / 16 (thorough) threads sharing &File, and has 3 / 6 child processes with fresh hash seeds reproduce the whole transcript from the same seed; every transcript must be identical; globals are compared before/after; one run per case is compared with the model.",
+            "DESIGN.md section 7, C12"),
 }
 
 NOT_YET = {}
